@@ -31,6 +31,8 @@ var registry = map[string]propDef{
 	"C04o": {"other", props.C01offset},
 	"C05o": {"other", props.C01offset},
 	"C05q": {"other", props.C05outputs},
+	"C05a": {"other", props.C05walloc},
+	"C05l": {"other", props.C05alias},
 	"C05d": {"other", props.C05dispatch},
 	"C05f": {"other", props.C05forms},
 	"C05w": {"other", props.C05wiring},
